@@ -98,6 +98,18 @@ def run(ctx):
         "afw / astropy.table storage classes are not importable in this sandbox",
     ]
     with core.Lock():
+        # T-tie: one iteration of FileTemplate.format's loop over the template fields (the `/` marker of the format specification,
+        # blanks and slashes replaced in string values, value appended after the literal) is translated from the working tree into
+        # Gen/TemplatePy.lean; C01.Translated.translated_writeField identifies it with the model's sanitisation
+        import sys as _sys
+
+        _sys.path.insert(0, os.path.join(core.VERIF, "translate"))
+        try:
+            import gen_template
+
+            gen_template.generate(core.GEN_DIR)
+        except Exception as e:
+            ctx.broken.append(f"translation: FileTemplate.format (field value): {type(e).__name__}: {e}")
         built = core.lean_build(ctx, LEAN_TARGETS)
         if built:
             core.lean_audit(ctx, ["ButlerModel.Props.C01"])
